@@ -1,5 +1,5 @@
 /* vp_vector_inc.h -- pulls the REAL util/vector.c into the harness TU with
- * its one allocator call routed to vp_realloc_ptrs (kit/vp_alloc_slab.c): a
+ * its one allocator call routed to vp_realloc_ptrs (kit/vp_alloc_c17.c): a
  * typed array of pointers instead of a byte object.  List "util/vector.c" in
  * include_real=[...] and do not list it in real=[...]. */
 #ifndef VP_VECTOR_INC_H
